@@ -245,6 +245,10 @@ class SetGen:
                         return '%02d' % rng.randint(0, 99) + rest
                     return '%04d' % rng.randint(1900, 2037) + rest
                 revs = [(stamp(), self.text()) for _ in range(rng.randint(0, 3))]
+                if revs and rng.random() < 0.2:
+                    revs.append((rng.choice(revs)[0], self.text()))          # two revisions of the same minute are two revisions
+                if rng.random() < 0.1:
+                    revs += [('201902300000Z', self.text()), ('201813010000Z', self.text())]     # no such dates: both stay, as the dummy date
                 revs.sort(reverse=True)
                 add({'kind': 'moduleIdentity', 'name': self.names.fresh(hyphen_ok=False), 'lastUpdated': '202001010000Z',
                      'organization': self.text(), 'contact': self.text(), 'description': self.text(), 'revisions': revs,
@@ -719,6 +723,15 @@ def print_module(m, rng, wild=False, positions=None, blocks=False, spell_seed=0)
     if m['imports']:
         t('IMPORTS')
         items = list(m['imports'].items())
+        # sometimes a module's symbols come in two FROM clauses with another module's clause between them: still one import list
+        irng = __import__('random').Random('%s/%s/%r' % (m['name'], spell_seed, items))    # does not depend on the layout
+        for k in range(len(items) - 1):
+            if len(items[k][1]) >= 2 and irng.random() < 0.2:
+                frm, syms = items[k]
+                cut = irng.randint(1, len(syms) - 1)
+                items[k] = (frm, syms[:cut])
+                items.insert(k + 2, (frm, syms[cut:]))
+                break
         for frm, syms in items:
             for i, s in enumerate(syms):
                 t(s + (',' if i < len(syms) - 1 else ''))
